@@ -21,6 +21,8 @@ pub const EXPRS: &[&str] = &[
     "type('1')",                        // a raw string with the same inner text as a JSON literal above
     "length('[1, 2, 3, 4, 5, 6, 7, 8, 9, 10, 11]')",  // long raw string ...
     "length(`[1, 2, 3, 4, 5, 6, 7, 8, 9, 10, 11]`)",  // ... and a JSON literal with the same inner text
+    "\"1\"",                            // a quoted identifier with the same inner text as the literal `1` and the raw string '1'
+    "a.\"b",                             // failing compile inside the lexer: an unclosed delimiter with pending text
 ];
 
 pub fn docs() -> Vec<Value> {
@@ -32,7 +34,7 @@ pub fn docs() -> Vec<Value> {
     ]
 }
 
-pub const N_E: usize = 13;
+pub const N_E: usize = 15;
 pub const N_D: usize = 4;
 
 #[derive(Clone, Copy, Debug, PartialEq, Eq, Hash)]
